@@ -153,12 +153,19 @@ def part_signing(ctx, wt, m, n, how, thorough):
             auto_done[0] = True
         rep['inputs_chosen_by'] = 'wallet' if auto else 'caller'
         ia = None if auto else [(txid, on) for on in outns]
+        # (some spends also carry a data output - no address, only a script - which every hand-off form has to carry along)
+        outs_ = [(EXT, 100000)]
+        if ctx.rng.random() < 0.3:
+            from bitcoinlib.transactions import Output as _Output
+            outs_.append(_Output(0, lock_script=bytes.fromhex('6a0b68656c6c6f20776f726c64'), network='bitcoin'))
+            rep['data_output'] = True
+            ctx.count('spend-with-data-output')
         try:
             if created_by == 'send':
                 # the usual way: send() without broadcasting creates, signs and serialises the transaction
-                t = first.send([(EXT, 100000)], input_arr=ia, fee=5000, broadcast=False, replace_by_fee=rbf, min_confirms=0)
+                t = first.send(outs_, input_arr=ia, fee=5000, broadcast=False, replace_by_fee=rbf, min_confirms=0)
             else:
-                t = first.transaction_create([(EXT, 100000)], input_arr=ia, fee=5000, replace_by_fee=rbf, min_confirms=0)
+                t = first.transaction_create(outs_, input_arr=ia, fee=5000, replace_by_fee=rbf, min_confirms=0)
                 t.sign()
         except Exception as e:
             ctx.violation('the first cosigner cannot create and sign the spend', dict(rep, error='%s: %s' % (type(e).__name__, str(e)[:80])))
